@@ -858,7 +858,8 @@ class SlabComponentsAverageBlockCollection(BlockCollection):
           with zero area.
         - Removing this component does not modify the blocks within the reactor.
         """
-        for c in repBlock.iterComponents():
+        # walk a copy: removing from the child list while iterating over it skips the next component
+        for c in list(repBlock.iterComponents()):
             if c.isLatticeComponent():
                 repBlock.remove(c)
         return repBlock
